@@ -168,6 +168,19 @@ func init() {
 					s.c.declare("headerLine", "(declare-fun headerLine (Str Str) Bool)")
 					s.c.declare("headerValue", "(declare-fun headerValue (Str) Str)")
 					s.assume(implies(app(">", n, "0"), and(app("headerLine", in, s.c.lit(name)), eq(sel(inner, "1"), app("headerValue", in)))))
+				case pat == "(?s)^(([!#$%&'*+\\-.^_\\x60|~a-zA-Z0-9]+)/([!#$%&'*+\\-.^_\\x60|~a-zA-Z0-9]+)).*$":
+					// named meaning of this exact pattern: the text starts with an RFC 9110 media type token/token;
+					// groups 1-3 are its essence, type and subtype
+					for _, f := range []string{"mtEssence", "mtSuper", "mtSub"} {
+						s.c.declare(f, fmt.Sprintf("(declare-fun %s (Str) Str)", f))
+					}
+					s.c.declare("isMediaType", "(declare-fun isMediaType (Str) Bool)")
+					s.assume(eq(app(">", n, "0"), app("isMediaType", in)))
+					s.assume(implies(app(">", n, "0"), and(eq(sel(inner, "1"), app("mtEssence", in)), eq(sel(inner, "2"), app("mtSuper", in)), eq(sel(inner, "3"), app("mtSub", in)))))
+					for k := 1; k <= 3; k++ {
+						el := sel(inner, fmt.Sprint(k))
+						s.assume(implies(app(">", n, "0"), and(app("clean", el), app("noNL", el), app("noCTL", el), app(">=", app("blen", el), "1"))))
+					}
 				case strings.HasPrefix(pat, "(?s)^(([!#"):
 					// token characters only: groups are clean whatever surrounds them
 					for k := 1; k <= 3; k++ {
